@@ -2,38 +2,45 @@
 
 package handler
 
-// C18: the gates as package handler exports them.
+// C18: the gates as package handler exports them (wiring level "handler": the middleware
+// is put in front of the protected handler directly; a route that needs both gates nests them).
 
 import (
 	"net/http"
 	"testing"
-	"time"
 
 	"github.com/zeromicro/go-zero/core/codec"
 )
 
-func c18MakeJwtGate(t *testing.T, cur, prev string, passiveCallback bool, next http.Handler) http.Handler {
-	var opts []AuthorizeOption
-	if prev != "" {
-		opts = append(opts, WithPrevSecret(prev))
-	}
-	if passiveCallback {
-		// looks at the error, writes nothing
-		opts = append(opts, WithUnauthorizedCallback(func(w http.ResponseWriter, r *http.Request, err error) {
-			_ = err
-		}))
-	}
-	return Authorize(cur, opts...)(next)
+func c18NextWire(decl string) c18Wire {
+	return c18Wire{Level: "handler", Chain: "none", Decl: decl}
 }
 
-func c18MakeCsGate(t *testing.T, keys []c18KeyFile, tolerance time.Duration, next http.Handler) http.Handler {
-	decrypters := map[string]codec.RsaDecrypter{}
-	for _, k := range keys {
-		d, err := codec.NewRsaDecrypter(k.File)
-		if err != nil {
-			t.Fatal(err)
+func c18MakeGate(t *testing.T, w c18Wire, g c18GateSpec, next http.Handler) http.Handler {
+	h := next
+	if w.Decl == "cs" || w.Decl == "both" {
+		decrypters := map[string]codec.RsaDecrypter{}
+		for _, k := range g.Keys {
+			d, err := codec.NewRsaDecrypter(k.File)
+			if err != nil {
+				t.Fatal(err)
+			}
+			decrypters[k.Fp] = d
 		}
-		decrypters[k.Fp] = d
+		h = ContentSecurityHandler(decrypters, g.Tolerance, true)(h)
 	}
-	return ContentSecurityHandler(decrypters, tolerance, true)(next)
+	if w.Decl == "jwt" || w.Decl == "both" {
+		var opts []AuthorizeOption
+		if g.Prev != "" {
+			opts = append(opts, WithPrevSecret(g.Prev))
+		}
+		if g.Callback {
+			// looks at the error, writes nothing
+			opts = append(opts, WithUnauthorizedCallback(func(w http.ResponseWriter, r *http.Request, err error) {
+				_ = err
+			}))
+		}
+		h = Authorize(g.Cur, opts...)(h)
+	}
+	return h
 }
